@@ -19,6 +19,7 @@ ASSUMPTIONS = [
 ]
 BUDGET = {"quick": 2400, "thorough": 60000}
 SHARDS = {"quick": 8, "thorough": 16}
+TECHNIQUE = "property-based testing: vectorised reference kernels + algebraic laws (constant, bounds, linearity, polynomial reproduction, row independence) + compiled-vs-interpreted differential"
 
 
 # -- generator --------------------------------------------------------------
